@@ -23,7 +23,7 @@ import gen_tables as GT
 import implutil as U
 
 STATIC = ["Model/IFMR.vo", "Model/IFMRSpec.vo"]
-EXTRA_PROPS = ["C09b", "C09c"]
+EXTRA_PROPS = ["C09b", "C09c", "C09d"]
 IMPORTS = "From SSP Require Import Model.Sev Model.IFMR."
 FAMILIES = {"banerjee20": "uSSE_rapid", "banerjee20-delayed": "uSSE_delayed", "cosmic-rapid": "COSMIC_rapid",
             "cosmic-delayed": "COSMIC_delayed"}
